@@ -21,11 +21,12 @@ RULE = (
     "often needs several lines) and, in a labelled class, off-grid positions (denominators 97, 101, 1000, 10007, 65537; "
     ">= 1/48 beat apart); samples known / without #WAV / unknown / empty; measures 0..999; an optional shift of every "
     "time (first tempo point not at 0 ms); output taken from write() or write_file(). Sub-check 'bigtempo' enumerates "
-    "deterministic charts with 36, 37 (quick) and 35, 36, 37, 71, 100, 330 points on measure lines, 1000 points on every "
+    "deterministic charts with 36, 37 (quick) and 35, 36, 37, 71, 72, 100, 330 points on measure lines, 1000 points on every "
     "measure line and 1294 points on beat lines (thorough) over layouts and bpm classes; 'limit' holds 1295 and 1296 "
     "points. Oracle: vlib/ref/bms.py on the written bytes (line grammar, lanes of the layout, LNOBJ pairing, #WAV and "
     "#BPMxx tables), positions compared in beat space with exact Fractions, tempo lists as step functions. "
-    "Non-trivial = a hold, or one (measure, channel) written on >= 2 lines, or >= 36 tempo points, or layout != BME."
+    "Non-trivial = a hold, or one (measure, lane channel) written on >= 2 lines, or >= 36 tempo points, or a layout "
+    "other than BME with at least one note."
 )
 ASSUMPTIONS = [
     "in-memory times are produced from exact beat positions by vlib/ref/timing (one float multiplication per tempo "
@@ -33,7 +34,8 @@ ASSUMPTIONS = [
     "'on the snap grid' = the position's fraction of a beat has a denominator <= 96 (every such fraction is a slot "
     "of reamber's default Snapper); everything else is 'off-grid' and may move by <= 1/192 beat (+1e-9)",
     "objects of one lane are distinct grid positions (on-grid charts) or >= 1/48 beat apart (charts with off-grid "
-    "objects), so no two objects share a (lane, grid slot); the first tempo point is the earliest time of the chart",
+    "objects), so no two objects share a (lane, grid slot); the first tempo point is the earliest time of the chart; "
+    "an off-grid object within 1/96 beat of the end of measure 999 is excluded (it may snap to measure 1000)",
     "BMS has no file offset: in-memory times are compared relative to the first tempo point (file time 0 = beat 0)",
     "written tempo values must equal the in-memory ones within 0.0005 (the 3 written decimals), exactly (rel 1e-9) in the "
     "'<=3 decimals' class; tempo lists are compared as step functions over beats (a redundant point may be omitted)",
@@ -393,8 +395,19 @@ def _check_written(ctx, skel, case, data):
                             ctx.fail("ms-exact", f"lane {col} beat {e['beat']}: file hold length {g['rec']['length']!r} ms, memory {ln!r} ms")
 
 
+def _domain(ctx, exp_lanes):
+    """An off-grid object less than 1/96 beat before the end of measure 999 may snap to measure 1000,
+    which '#mmm' cannot express: outside the domain (measures <= 999)."""
+    for v in exp_lanes.values():
+        for e in v:
+            for p in (e["beat"], e["tail"]):
+                if p is not None and not _on_grid(p) and p > gen.MAX_BEAT - F(1, 96):
+                    ctx.exclude("off-grid object within 1/96 beat of the end of measure 999")
+
+
 def check_write(case, ctx):
     skel = case["chart"]
+    _domain(ctx, _expected_lanes(skel))
     _labels(ctx, skel, case, _expected_lanes(skel))
     data = _run_writer(ctx, skel, case)
     _check_written(ctx, skel, case, data)
@@ -435,7 +448,7 @@ SUBS = [
         "write",
         check_write,
         strategy=write_case,
-        examples={"quick": 280, "thorough": 2500},
+        examples={"quick": 280, "thorough": 2000},
         shards={"quick": 16, "thorough": 16},
     ),
     Sub("bigtempo", check_big, enumerate=big_cases, shards={"quick": 4, "thorough": 16}, exhaustive=False),
